@@ -4,3 +4,9 @@
 def hello(context, a):
     context.write("{helper.hello:%s}" % a)
     return ""
+
+
+def both(context, a):
+    """also defined inline in some <%namespace module=...> tags: the inline def wins"""
+    context.write("{helper.both:%s}" % a)
+    return ""
